@@ -29,10 +29,17 @@ const (
 	ascii9 = 57
 )
 
+// maxFastDigits is the number of decimal digits that always fit in an int.
+const maxFastDigits = 18
+
 // atoi is similar to the function in strconv, but is tuned for ints appearing in FIX field types.
 func atoi(d []byte) (int, error) {
 	if len(d) == 0 {
 		return 0, errors.New("empty bytes")
+	}
+
+	if len(d) > maxFastDigits {
+		return atoiLong(d)
 	}
 
 	if d[0] == asciiMinus {
@@ -43,7 +50,24 @@ func atoi(d []byte) (int, error) {
 	return parseUInt(d)
 }
 
+// atoiLong reads texts too long for the fast path: same grammar, with a range check instead of silent wrap-around.
+func atoiLong(d []byte) (int, error) {
+	for i, dec := range d {
+		if (dec < ascii0 || dec > ascii9) && !(i == 0 && dec == asciiMinus) {
+			return 0, errors.New("invalid format")
+		}
+	}
+
+	n, err := strconv.ParseInt(string(d), 10, 64)
+	if err != nil {
+		return 0, errors.New("value out of range")
+	}
+
+	return int(n), nil
+}
+
 // parseUInt is similar to the function in strconv, but is tuned for ints appearing in FIX field types.
+// The caller guarantees that d has at most maxFastDigits bytes.
 func parseUInt(d []byte) (n int, err error) {
 	if len(d) == 0 {
 		err = errors.New("empty bytes")
